@@ -1,2 +1,82 @@
--- placeholder driver (model for C03 not built yet)
-def main : IO Unit := pure ()
+/-
+  Driver for the call model (C03).
+    hist <retries> <seq0> <calls> <script>
+      calls  : comma separated  <kind><token>   kind = n normal | x raises | s stream | o oneway | b batch |
+               B batch-oneway | g getattr | t setattr | f fetch            ("-" = none)
+      script : comma separated  ok | lo | la | cu | rb | ra | st<a> | sh | sq<d> | du | in   ("-" = empty)
+    → per call, joined by ";" :  <outcome> <execs of the token during the call> <F|I|L|D> <seq> <connects> <events consumed> <unread>
+      outcome = ret:<kind>:<token> | none | fail:closed|timeout|protocol|intr | stuck | end     (stops after `end`)
+-/
+import PyroModel.Call
+import Driver.Util
+
+open Pyro.Call Driver
+
+def parseKind (c : Char) : Option Kind :=
+  match c with
+  | 'n' => some .normal | 'x' => some .raises | 's' => some .stream | 'o' => some .oneway
+  | 'b' => some .batch | 'B' => some .batchOneway | 'g' => some .getattr | 't' => some .setattr
+  | 'f' => some .fetch | _ => none
+
+def kindChar : Kind → String
+  | .normal => "n" | .raises => "x" | .stream => "s" | .oneway => "o" | .batch => "b"
+  | .batchOneway => "B" | .getattr => "g" | .setattr => "t" | .fetch => "f"
+
+def parseCall (s : String) : Option (Kind × Nat) :=
+  match s.toList with
+  | c :: rest => do
+    let k ← parseKind c
+    let t ← (String.ofList rest).toNat?
+    some (k, t)
+  | [] => none
+
+def parseEv (s : String) : Option Ev :=
+  if s == "ok" then some .ok
+  else if s == "lo" then some .lost
+  else if s == "la" then some .late
+  else if s == "cu" then some .cut
+  else if s == "rb" then some .resetBefore
+  else if s == "ra" then some .resetAfter
+  else if s == "sh" then some .staleHs
+  else if s == "du" then some .dup
+  else if s == "in" then some .intr
+  else if s.startsWith "st" then (s.drop 2).toNat?.map .stale
+  else if s.startsWith "sq" then (s.drop 2).toNat?.map .seqAlt
+  else none
+
+def parseList {α} (f : String → Option α) (s : String) : Option (List α) :=
+  if s == "-" then some [] else (s.splitOn ",").mapM f
+
+def showOutcome : Outcome → String
+  | .returned k t => s!"ret:{kindChar k}:{t}"
+  | .none_ => "none"
+  | .failed .connClosed => "fail:closed"
+  | .failed .timeout => "fail:timeout"
+  | .failed .protocol => "fail:protocol"
+  | .failed .interrupt => "fail:intr"
+  | .stuck => "stuck"
+  | .scriptEnd => "end"
+
+def showPc : PConn → String × Nat
+  | .fresh => ("F", 0)
+  | .idle => ("I", 0)
+  | .live c => (if c.dead then "D" else "L", c.queue.length)
+
+def runCalls (retries : Nat) : List (Kind × Nat) → World → List Ev → List String → List String
+  | [], _, _, acc => acc.reverse
+  | (k, tok) :: rest, W, s, acc =>
+    let (o, W', s') := call real retries k tok W s
+    let (pc, ql) := showPc W'.pc
+    let line := s!"{showOutcome o} {execs tok W' - execs tok W} {pc} {W'.seq} {W'.connects} {s.length - s'.length} {ql}"
+    match o with
+    | .scriptEnd => (("end" :: acc)).reverse
+    | _ => runCalls retries rest W' s' (line :: acc)
+
+def step : List String → String
+  | ["hist", r, seq0, calls, script] =>
+    match r.toNat?, seq0.toNat?, parseList parseCall calls, parseList parseEv script with
+    | some r, some q, some cs, some sc => ";".intercalate (runCalls r cs (init q) sc [])
+    | _, _, _, _ => "bad-op"
+  | _ => "bad-op"
+
+def main : IO Unit := runDriver step
